@@ -25,7 +25,10 @@ EXPLANATION = (
     "keys readable on call-graph paths from a _lower/lower_once override are the reviewed set - lowering results are memoised by node name "
     "for the whole process, so such a read makes the optimized graph keys of a program depend on what was lowered before (two such reads "
     "are genuine on today's tree and are listed as known findings); R07.7 every Reduction is constructed with its split_every operand "
-    "already normalised, so the reduction-tree fan-in is part of the name rather than read from configuration at lowering. Stability of "
+    "already normalised, so the reduction-tree fan-in is part of the name rather than read from configuration at lowering; R07.8 REF: "
+    "the conditions under which dask_array's own tokenizer for callables and types declines the (module, qualname) reference token "
+    "(__main__, <locals>/<lambda>, not importable, rebound) - each documented in the source as needed for cross-process stability - still "
+    "guard the reference return. Stability of "
     "dask.tokenize on user objects across processes and value equality after a round trip are not decided."
 )
 ASSUMPTIONS = [
@@ -49,6 +52,7 @@ ALLOWED = {
     ("dask_array/core/_conversion.py::from_array", "uuid"): "documented API: from_array(name=False) asks for a unique name; a user-supplied name carries a uuid1 token so two exact-name nodes never share a token",
     ("dask_array/_blockwise.py::Blockwise.__dask_tokenize__", "id"): "documented fallback: values that cannot be tokenized deterministically (and non-serializable locks) are named by identity; cached in _determ_token",
     ("dask_array/_blockwise.py::Elemwise.__dask_tokenize__", "id"): "documented fallback, mirrors Blockwise; cached in _determ_token",
+    ("dask_array/io/_from_map.py::FromMap.__dask_tokenize__", "pickle"): "documented fast token for coalesced from_delayed call bundles: accepted only when two pickles agree byte-for-byte and the payload does not refer to __main__, else the stock tokenizer runs; shares the identity-structure sensitivity recorded as a known finding for Rechunk._name, but no witness was constructed for this site, so it is listed as reviewed",
 }
 
 
@@ -90,6 +94,10 @@ def _source_kind(call: ast.Call, f: FuncInfo, repo):
         return "np.random"
     if name in ("datetime.datetime.now", "datetime.now", "datetime.datetime.utcnow"):
         return "time"
+    if name in ("pickle.dumps", "cloudpickle.dumps", "dask_array.io._from_map._dumps5") or name.endswith("._dumps5") or name == "_dumps5":
+        # the bytes of ONE pickle depend on which sub-objects the payload shares (memoisation) and on mapping order:
+        # equal payloads need not pickle equally
+        return "pickle"
     return None
 
 
@@ -161,7 +169,14 @@ class NondetEval(Evaluator):
 
     @staticmethod
     def _freeze(tags, line):
-        return frozenset((f"ord@{line}" if t == "SS" else t) for t in tags if t != "SS[*]")
+        return frozenset((f"ord@{line}" if t == "SS" else f"dord@{line}" if t == "DV" else t) for t in tags if t != "SS[*]")
+
+    def store_tags(self, target, base_tags, value_tags):
+        # d[k] = v into a mapping: the order entries were inserted in is not content (it becomes order again only if
+        # the mapping is later projected to a sequence, which is judged at that point)
+        if isinstance(target, ast.Subscript) and "MAP" in base_tags:
+            return frozenset(t for t in value_tags if not t.startswith("dord@"))
+        return value_tags
 
     def iter_tags(self, it, st):
         # iterating a set of strings visits its elements in hash order: whatever the loop accumulates is ordered by it
@@ -205,10 +220,13 @@ class NondetEval(Evaluator):
                     if isinstance(n, ast.Name):
                         st2[n.id] = frozenset(t for t in tags if not t.startswith("ord@"))
             if isinstance(e, ast.DictComp):
-                return self.ev(e.key, st2) | self.ev(e.value, st2) | extra
+                # a mapping: the order its entries were inserted in is not content
+                return frozenset(t for t in self.ev(e.key, st2) | self.ev(e.value, st2) | extra if not t.startswith("dord@")) | {"MAP"}
             return self.ev(e.elt, st2) | extra
         if isinstance(e, ast.JoinedStr):
             return self._freeze(super().ev(e, st), getattr(e, "lineno", 0))
+        if isinstance(e, ast.Dict):
+            return frozenset(t for t in super().ev(e, st) if not t.startswith("dord@")) | {"MAP"}
         if isinstance(e, ast.BinOp) and isinstance(e.op, (ast.Sub, ast.BitOr, ast.BitAnd, ast.BitXor)):
             l, r = self.ev(e.left, st), self.ev(e.right, st)
             if "SS" in l or "SS" in r:
@@ -216,13 +234,13 @@ class NondetEval(Evaluator):
         return super().ev(e, st)
 
     def attribute(self, n, st):
-        return _strip(self.ev(n.value, st), "SS", "SS[*]")
+        return _strip(self.ev(n.value, st), "SS", "SS[*]", "DV")
 
     def subscript(self, n, st):
         base = self.ev(n.value, st)
-        out = _strip(base, "SS", "SS[*]") | ({"SS"} if "SS[*]" in base else EMPTY)
+        out = _strip(base, "SS", "SS[*]", "DV") | ({"SS"} if "SS[*]" in base else EMPTY)
         # which element is selected depends on the index: an order-dependent index gives an order-dependent element
-        return out | frozenset(t for t in self.ev(n.slice, st) if t.startswith(("ord@", "src:", "P:")))
+        return out | frozenset(t for t in self.ev(n.slice, st) if t.startswith(("ord@", "dord@", "src:", "P:")))
 
     def compare(self, n, st):
         return EMPTY
@@ -240,13 +258,18 @@ class NondetEval(Evaluator):
         for k in n.keywords:
             argtags |= self.ev(k.value, st)
         recv = self.ev(fn.value, st) if isinstance(fn, ast.Attribute) else EMPTY
+        if isinstance(fn, ast.Attribute) and fn.attr in ("items", "keys", "values") and not n.args:
+            # a view of a mapping: its order is the order the caller happened to spell the entries in
+            return _strip(recv, "SS", "SS[*]", "DV") | {"DV"}
+        if isinstance(fn, ast.Name) and fn.id == "dict" and fn.id not in self.f.local_names:
+            return frozenset(t for t in argtags if t.startswith(("src:", "ord@", "P:"))) | {"MAP"}  # a mapping again: entry order is not content
         if isinstance(fn, ast.Name) and fn.id in ("set", "frozenset") and fn.id not in self.f.local_names:
             stringy = bool(n.args) and (_is_stringy(n.args[0], self.f, repo) or "SS" in argtags)
             return _strip(argtags, "SS") | ({"SS"} if stringy else EMPTY)
         if tail in ORDER_FREE:
-            return _strip(argtags | recv, "SS")
+            return _strip(argtags | recv, "SS", "DV")
         if tail in TOKENIZERS:
-            return _strip(argtags, "SS")  # tokenize normalises a set order-free; an already frozen order is kept
+            return _strip(argtags, "SS", "DV")  # tokenize normalises sets and mappings order-free; an already frozen order is kept
         if isinstance(fn, ast.Attribute) and fn.attr in ("union", "intersection", "difference", "symmetric_difference", "copy") and "SS" in recv:
             return recv | _strip(argtags, "SS")
         if isinstance(fn, ast.Attribute) and fn.attr in ("get", "pop", "setdefault") and "SS[*]" in recv:
@@ -268,7 +291,7 @@ class NondetEval(Evaluator):
                     for x in exprs:
                         out |= _strip(self.ev(x, st), "SS")
             return out
-        return _strip(argtags | recv, "SS", "SS[*]")
+        return _strip(argtags | recv, "SS", "SS[*]", "DV")
 
 
 def _bind(callee: FuncInfo, call: ast.Call):
@@ -307,7 +330,7 @@ def _may_matter(f: FuncInfo):
     if src is None:
         src = ast.get_source_segment(f.module.src, f.node) or ""
         f.__dict__["_c07_src"] = src
-    return any(k in src for k in ("uuid", "id(", "hash(", "time.", "getpid", "urandom", "secrets", "random.", "set(", "frozenset(", "_set", "datetime")) or ("{" in src and any(isinstance(n, (ast.Set, ast.SetComp)) for n in ast.walk(f.node)))
+    return any(k in src for k in ("uuid", "id(", "hash(", "time.", "getpid", "urandom", "secrets", "random.", "set(", "frozenset(", "_set", "datetime", "dumps")) or ("{" in src and any(isinstance(n, (ast.Set, ast.SetComp)) for n in ast.walk(f.node)))
 
 
 def _expr_class(ctx, ci):
@@ -331,8 +354,15 @@ def summary(ctx, f: FuncInfo, depth=0, stack=()):
     flow = TagFlow(f.node, evr, init=init, cfg=cfg_of(ctx, f))
     sinks = []
 
+    top = f
+    while top.parent is not None:
+        top = top.parent
+    # mapping order is judged only where a mapping IS content being named: inside tokenizer / name bodies (operands are
+    # user-supplied mappings there). Elsewhere dicts are mostly built internally, in a deterministic insertion order.
+    in_namer = top.cls is not None and top.name in SINK_MEMBERS
+
     def interesting(tags):
-        return frozenset(t for t in tags if t.startswith(("src:", "ord@", "P:")))
+        return frozenset(t for t in tags if t.startswith(("src:", "ord@", "P:")) or (in_namer and t.startswith("dord@")))
 
     def visit(stmt, n, st):
         if isinstance(n, ast.Call):
@@ -370,7 +400,7 @@ def summary(ctx, f: FuncInfo, depth=0, stack=()):
                 sinks.append((tg, f"return value of {f.qualname}", stmt))
 
     flow.visit(visit)
-    out = {"returns": frozenset(t for t in flow.return_tags() if t.startswith(("src:", "ord@", "P:"))), "sinks": sinks}
+    out = {"returns": interesting(flow.return_tags()), "sinks": sinks}
     ctx._cache[key] = out
     return out
 
@@ -408,6 +438,8 @@ def _kind_of(tag):
         return tag[4:].split("@")[0]
     if tag.startswith("ord@"):
         return "set-order"
+    if tag.startswith("dord@"):
+        return "mapping-order"
     return None
 
 
@@ -418,7 +450,7 @@ def r07_1(ctx):
     source_sites = 0
     for m in repo.units:
         for f in m.functions.values():
-            if not _reaches_source(ctx, f):
+            if not (_reaches_source(ctx, f) or (f.cls is not None and f.name in SINK_MEMBERS)):
                 continue
             analysed += 1
             source_sites += sum(1 for n in body_walk(f.node) if isinstance(n, ast.Call) and _source_kind(n, f, repo))
@@ -437,10 +469,14 @@ def r07_1(ctx):
                 if reason:
                     rr.exempt(cst, reason)
                     continue
+                why = {
+                    "pickle": "the bytes of a single pickle depend on which sub-objects the payload happens to share (memoisation) and on mapping order, so EQUAL inputs can get different names",
+                    "mapping-order": "the order in which the caller spelled the entries of a mapping is frozen into the token, so EQUAL mappings (e.g. the same keyword arguments in another order) get different names",
+                    "set-order": "the iteration order of a set of strings depends on PYTHONHASHSEED, so a fresh process gives another name / other graph keys",
+                }.get(k, "building the same program again - in this process or a fresh one (another pid, clock, object address) - gives another name / other graph keys")
                 ctx.finding(
                     rr, cst,
-                    f"a {k} value (source line {tag.split('@')[-1]}) flows into a name in {f.qualname}: {what}. Building the same program again - in this "
-                    f"process or a fresh one (another PYTHONHASHSEED, pid, clock) - gives another name / other graph keys, and this is not a documented untokenizable-source case",
+                    f"a {k} value (source line {tag.split('@')[-1]}) flows into a name in {f.qualname}: {what}; {why}; this is not one of the documented untokenizable-source cases",
                     func=f, node=node,
                 )
     rr.notes.append(f"{analysed} functions analysed (those that reach a source within 4 resolved calls); {source_sites} nondeterministic call sites in them")
@@ -692,7 +728,14 @@ def r07_7(ctx):
     return rr
 
 
-RULES = [r07_1, r07_2, r07_3, r07_4, r07_5, r07_6, r07_7]
+def r07_8(ctx):
+    from ..refguards import check_reference
+
+    rr = RuleResult("R07.8", "REF", "the decline guards of the package's own tokenizer for callables/types (_dispatch._importable_ref and the registered normalizers) are structurally unchanged", min_instances=12)
+    return check_reference(ctx, rr, PROP)
+
+
+RULES = [r07_1, r07_2, r07_3, r07_4, r07_5, r07_6, r07_7, r07_8]
 
 LEVEL_TEXT = (
     "Static decision of the naming-determinism discipline: a flow-sensitive taint analysis over the statement CFG of every "
